@@ -12,7 +12,8 @@ def run(ctx):
     core_specs.filedata(ctx, maxfs_values=(1, 3, 5))
     binp = ctx.build_harness(cc.HARNESS)
     q = ctx.quick()
-    trace, res, summ = cc.run_profile(ctx, binp, "maxfs", 32 if q else 320, 30 if q else 40)
-    cc.report(ctx, PID, res, trace, "maxfs")
+    runs = cc.run_profile(ctx, binp, "maxfs", 32 if q else 320, 30 if q else 40)
+    cc.report_all(ctx, PID, runs, "maxfs")
+    trace, res = runs[0]
     cc.mutate_and_reject(ctx, trace, "maxfs", [cc.mut_fbig, cc.mut_lose_data], "an over-limit WRITE reported as OK")
     ctx.cov["rule"] = 'seeded WRITE/SETATTR(size)/READ histories on two files with MaxFileSize 1, 5, 10, 33 set at construction or switched on (and changed) at run time, offsets/counts/sizes at limit-1, limit, limit+1; non-trivial = at least 3 mutating requests'
